@@ -8,11 +8,11 @@ Definition call (c : str) (codes : list N) (f : bool) : gen_call :=
   {| g_client := c; g_codes := codes; g_force := f; g_core_given := true |}.
 
 (* F11a: core "a.b.core" (three packages deep): c1 declares 404, then c2 declares 409 *)
-Definition l_F11a : layout := {| core_depth := 3; core_inside_client := None; core_gap := false |}.
+Definition l_F11a : layout := {| core_depth := 3; core_inside_client := None |}.
 Definition h_F11a : list gen_call := [call c1 [200; 404] true; call c2 [200; 409] true].
 
 (* F11b: core "c1.core": c1 (404), c2 (409), then c1 regenerated with force *)
-Definition l_in : layout := {| core_depth := 2; core_inside_client := Some c1; core_gap := false |}.
+Definition l_in : layout := {| core_depth := 2; core_inside_client := Some c1 |}.
 Definition h_F11b : list gen_call :=
   [call c1 [200; 404] true; call c2 [200; 409] true; call c1 [200; 404] true].
 
@@ -220,7 +220,7 @@ Qed.
 (* a shared core two packages deep; three clients, regeneration with fewer codes, a refused
    non-force call: the guard holds and something non-trivial is protected *)
 Definition c3 : str := [99; 51].
-Definition l_ok : layout := {| core_depth := 2; core_inside_client := None; core_gap := false |}.
+Definition l_ok : layout := {| core_depth := 2; core_inside_client := None |}.
 Definition h_ok : list gen_call :=
   [call c1 [200; 404; 500] true; call c2 [201; 409] false; call c1 [200; 404] true;
    call c2 [201; 409] false; call c3 [204] true].
